@@ -12,10 +12,13 @@ import (
 	"encoding/hex"
 	"fmt"
 	"math/rand"
+	"strings"
 	"unicode/utf8"
 
 	sdk "github.com/cosmos/cosmos-sdk/types"
 	"github.com/cosmos/cosmos-sdk/types/query"
+	notiftypes "github.com/jackalLabs/canine-chain/v4/x/notifications/types"
+	rnstypes "github.com/jackalLabs/canine-chain/v4/x/rns/types"
 	sttypes "github.com/jackalLabs/canine-chain/v4/x/storage/types"
 )
 
@@ -518,6 +521,291 @@ func (g *storageGen) queryStep() (map[string]interface{}, interface{}, string) {
 	}
 	if len(bad) > 0 {
 		resp = map[string]interface{}{"malformed": fmt.Sprint(bad)}
+	}
+	return q, resp, kind
+}
+
+// ---------------------------------------------------------------- rns
+
+func rnsNameJ(n rnstypes.Names) rnsName {
+	subs := []rnsSub{}
+	for _, s := range n.Subdomains {
+		subs = append(subs, rnsSub{s.Name, s.Value, s.Data, s.Tld, s.Expires})
+	}
+	return rnsName{n.Name, n.Tld, n.Expires, n.Value, n.Data, n.Locked, subs}
+}
+
+// rnsQueryStep asks the rns query server one generated question about the current state
+func rnsQueryStep(c *Chain, r *rand.Rand, pg *pager, actors []string) (map[string]interface{}, interface{}, string) {
+	k := c.A.RnsKeeper
+	ctx := c.Ctx()
+	w := sdk.WrapSDKContext(ctx)
+	names := k.GetAllNames(ctx)
+	anyName := func() string {
+		if len(names) > 0 && r.Intn(4) > 0 {
+			n := names[r.Intn(len(names))]
+			s := n.Name + "." + n.Tld
+			if len(n.Subdomains) > 0 && r.Intn(2) == 0 {
+				s = n.Subdomains[r.Intn(len(n.Subdomains))].Name + "." + s
+			}
+			switch r.Intn(8) {
+			case 0:
+				s = strings.ToUpper(s[:1]) + s[1:]
+			case 1:
+				s = "nosuch." + s
+			case 2:
+				s = strings.ToUpper(s)
+			}
+			return s
+		}
+		return rnsNamePool[r.Intn(len(rnsNamePool))]
+	}
+	anyAddr := func() string {
+		a := actors[r.Intn(len(actors))]
+		switch r.Intn(8) {
+		case 0:
+			return strings.ToUpper(a)
+		case 1:
+			return a[:len(a)-1]
+		}
+		return a
+	}
+	var q map[string]interface{}
+	var resp interface{}
+	kind := ""
+	switch n := r.Intn(13); {
+	case n < 3:
+		kind = "name"
+		nm := anyName()
+		q = map[string]interface{}{"name": map[string]interface{}{"name": nm, "lname": strings.ToLower(nm)}}
+		resp = safely(func() (interface{}, error) {
+			res, err := k.Name(w, &rnstypes.QueryName{Name: nm})
+			if err != nil {
+				return nil, err
+			}
+			return map[string]interface{}{"name": map[string]interface{}{"n": rnsNameJ(res.Name)}}, nil
+		})
+	case n < 4:
+		kind = "primaryName"
+		a := anyAddr()
+		q = map[string]interface{}{"primaryName": map[string]interface{}{"owner": a}}
+		resp = safely(func() (interface{}, error) {
+			res, err := k.PrimaryName(w, &rnstypes.QueryPrimaryName{Owner: a})
+			if err != nil {
+				return nil, err
+			}
+			return map[string]interface{}{"name": map[string]interface{}{"n": rnsNameJ(res.Name)}}, nil
+		})
+	case n < 6:
+		kind = "listOwnedNames"
+		a := anyAddr()
+		req, pj := pg.page(kind, nil)
+		var pjv interface{}
+		if pj != nil {
+			pjv = pj
+		}
+		q = map[string]interface{}{"listOwnedNames": map[string]interface{}{"address": a, "page": pjv}}
+		resp = safely(func() (interface{}, error) {
+			res, err := k.ListOwnedNames(w, &rnstypes.QueryListOwnedNames{Address: a, Pagination: req})
+			if err != nil {
+				return nil, err
+			}
+			items := []interface{}{}
+			for _, x := range res.Names {
+				items = append(items, rnsNameJ(x))
+			}
+			return listed("names", items, nil, res.Pagination.Total), nil
+		})
+	case n < 8:
+		kind = "allNames"
+		req, pj := pg.page(kind, c.rawKeys(rnstypes.StoreKey, rnstypes.NamesKeyPrefix))
+		q = map[string]interface{}{"allNames": map[string]interface{}{"page": pageOrDefault(pj)}}
+		resp = safely(func() (interface{}, error) {
+			res, err := k.AllNames(w, &rnstypes.QueryAllNames{Pagination: req})
+			if err != nil {
+				return nil, err
+			}
+			items := []interface{}{}
+			for _, x := range res.Name {
+				items = append(items, rnsNameJ(x))
+			}
+			nk, tot := pg.note(kind, res.Pagination)
+			return listed("names", items, nk, tot), nil
+		})
+	case n < 9:
+		kind = "bid"
+		bids := k.GetAllBids(ctx)
+		ix := anyAddr() + anyName()
+		if len(bids) > 0 && r.Intn(4) > 0 {
+			ix = bids[r.Intn(len(bids))].Index
+			if r.Intn(6) == 0 {
+				ix = strings.ToUpper(ix)
+			}
+		}
+		q = map[string]interface{}{"bid": map[string]interface{}{"index": ix}}
+		resp = safely(func() (interface{}, error) {
+			res, err := k.Bid(w, &rnstypes.QueryBid{Name: ix})
+			if err != nil {
+				return nil, err
+			}
+			b := res.Bids
+			return map[string]interface{}{"bid": map[string]interface{}{"b": rnsBid{b.Index, b.Name, b.Bidder, b.Price, parseCoinsJ(b.Price)}}}, nil
+		})
+	case n < 10:
+		kind = "allBids"
+		req, pj := pg.page(kind, c.rawKeys(rnstypes.StoreKey, rnstypes.BidsKeyPrefix))
+		q = map[string]interface{}{"allBids": map[string]interface{}{"page": pageOrDefault(pj)}}
+		resp = safely(func() (interface{}, error) {
+			res, err := k.AllBids(w, &rnstypes.QueryAllBids{Pagination: req})
+			if err != nil {
+				return nil, err
+			}
+			items := []interface{}{}
+			for _, b := range res.Bids {
+				items = append(items, rnsBid{b.Index, b.Name, b.Bidder, b.Price, parseCoinsJ(b.Price)})
+			}
+			nk, tot := pg.note(kind, res.Pagination)
+			return listed("bids", items, nk, tot), nil
+		})
+	case n < 11:
+		kind = "forSale"
+		nm := strings.ToLower(anyName())
+		if sales := k.GetAllForsale(ctx); len(sales) > 0 && r.Intn(4) > 0 {
+			nm = sales[r.Intn(len(sales))].Name
+		}
+		if r.Intn(5) == 0 {
+			nm = anyName()
+		}
+		q = map[string]interface{}{"forSale": map[string]interface{}{"name": nm}}
+		resp = safely(func() (interface{}, error) {
+			res, err := k.ForSale(w, &rnstypes.QueryForSale{Name: nm})
+			if err != nil {
+				return nil, err
+			}
+			f := res.ForSale
+			return map[string]interface{}{"listing": map[string]interface{}{"l": rnsListing{f.Name, f.Owner, f.Price, parseCoinJ(f.Price)}}}, nil
+		})
+	case n < 12:
+		kind = "allForSale"
+		req, pj := pg.page(kind, c.rawKeys(rnstypes.StoreKey, rnstypes.ForsaleKeyPrefix))
+		q = map[string]interface{}{"allForSale": map[string]interface{}{"page": pageOrDefault(pj)}}
+		resp = safely(func() (interface{}, error) {
+			res, err := k.AllForSale(w, &rnstypes.QueryAllForSale{Pagination: req})
+			if err != nil {
+				return nil, err
+			}
+			items := []interface{}{}
+			for _, f := range res.ForSale {
+				items = append(items, rnsListing{f.Name, f.Owner, f.Price, parseCoinJ(f.Price)})
+			}
+			nk, tot := pg.note(kind, res.Pagination)
+			return listed("listings", items, nk, tot), nil
+		})
+	default:
+		if r.Intn(2) == 0 {
+			kind = "init"
+			a := anyAddr()
+			q = map[string]interface{}{"init": map[string]interface{}{"address": a}}
+			resp = safely(func() (interface{}, error) {
+				res, err := k.Init(w, &rnstypes.QueryInit{Address: a})
+				if err != nil {
+					return nil, err
+				}
+				return map[string]interface{}{"flag": map[string]interface{}{"b": res.Init}}, nil
+			})
+		} else {
+			kind = "allInits"
+			req, pj := pg.page(kind, c.rawKeys(rnstypes.StoreKey, rnstypes.InitKeyPrefix))
+			q = map[string]interface{}{"allInits": map[string]interface{}{"page": pageOrDefault(pj)}}
+			resp = safely(func() (interface{}, error) {
+				res, err := k.AllInits(w, &rnstypes.QueryAllInits{Pagination: req})
+				if err != nil {
+					return nil, err
+				}
+				items := []interface{}{}
+				for _, x := range res.Init {
+					items = append(items, x.Complete)
+				}
+				nk, tot := pg.note(kind, res.Pagination)
+				return listed("flags", items, nk, tot), nil
+			})
+		}
+	}
+	return q, resp, kind
+}
+
+// ---------------------------------------------------------------- notifications
+
+func notifQueryStep(c *Chain, r *rand.Rand, pg *pager, actors []string) (map[string]interface{}, interface{}, string) {
+	k := c.A.NotificationsKeeper
+	ctx := c.Ctx()
+	w := sdk.WrapSDKContext(ctx)
+	all := k.GetAllNotifications(ctx)
+	var q map[string]interface{}
+	var resp interface{}
+	kind := ""
+	addr := func() string {
+		a := actors[r.Intn(len(actors))]
+		if r.Intn(10) == 0 {
+			return a[:len(a)-2]
+		}
+		return a
+	}
+	switch n := r.Intn(6); {
+	case n < 1:
+		kind = "notification"
+		to, from, t := addr(), addr(), int64(r.Intn(1000))
+		if len(all) > 0 && r.Intn(4) > 0 {
+			x := all[r.Intn(len(all))]
+			to, from, t = x.To, x.From, x.Time
+			if r.Intn(8) == 0 {
+				t++
+			}
+		}
+		q = map[string]interface{}{"notification": map[string]interface{}{"to": to, "sender": from, "time": t}}
+		resp = safely(func() (interface{}, error) {
+			res, err := k.Notification(w, &notiftypes.QueryNotification{To: to, From: from, Time: t})
+			if err != nil {
+				return nil, err
+			}
+			return map[string]interface{}{"notif": map[string]interface{}{"n": notifJ(res.Notification)}}, nil
+		})
+	case n < 3:
+		kind = "allNotifications"
+		req, pj := pg.page(kind, c.rawKeys(notiftypes.StoreKey, notiftypes.NotificationsKeyPrefix))
+		q = map[string]interface{}{"allNotifications": map[string]interface{}{"page": pageOrDefault(pj)}}
+		resp = safely(func() (interface{}, error) {
+			res, err := k.AllNotifications(w, &notiftypes.QueryAllNotifications{Pagination: req})
+			if err != nil {
+				return nil, err
+			}
+			items := []interface{}{}
+			for _, x := range res.Notifications {
+				items = append(items, notifJ(x))
+			}
+			nk, tot := pg.note(kind, res.Pagination)
+			return listed("notifs", items, nk, tot), nil
+		})
+	default:
+		kind = "byAddress"
+		to := addr()
+		req, pj := pg.page(kind, nil)
+		var pjv interface{}
+		if pj != nil {
+			pjv = pj
+		}
+		q = map[string]interface{}{"byAddress": map[string]interface{}{"to": to, "page": pjv}}
+		resp = safely(func() (interface{}, error) {
+			res, err := k.AllNotificationsByAddress(w, &notiftypes.QueryAllNotificationsByAddress{To: to, Pagination: req})
+			if err != nil {
+				return nil, err
+			}
+			items := []interface{}{}
+			for _, x := range res.Notifications {
+				items = append(items, notifJ(x))
+			}
+			return listed("notifs", items, nil, res.Pagination.Total), nil
+		})
 	}
 	return q, resp, kind
 }
